@@ -11,7 +11,7 @@ CHECKS = {
         'pause-point x client-action pairs and seeded random lifecycle programs on a real Router with scripted subscribers/publishers; the stamped hook log is replayed label by label '
         'on the model (emitted API events compared) and the property monitor judges the implementation\'s API history.'),
   note=('Self-close stuck-freedom (C10_self_close_never_stuck) and Stop-is-local (C10_stop_is_local, one reachable-state theorem) are proved; partial: no termination measure (liveness on the '
-        'implementation is a watchdog verdict), and "the monitor accepts every model history" is proved for all labels up to the clauses 1, 6, 10 (C10_monitor_accepts_partial: verdict in {0,1,6,10}; C10_monitor_simulation) - each monitor clause is backed by the state theorem named in notes/deliver/C10/design.md. '
+        'implementation is a watchdog verdict), and "the monitor accepts every model history" is proved for all labels up to clause 6 when no handler is added while the router closes itself (C10_monitor_accepts: verdict 0 or 6; without that premise C10_monitor_accepts_partial: 0, 1, 6 or 10) - each monitor clause is backed by the state theorem named in notes/deliver/C10/design.md. '
         'Trusted: Coq kernel + vm_compute; Go runtime semantics of locks/WaitGroup/channels/select/context as modelled; Close\'s waitForHandlers and message handling abstracted; '
         'the stamp->label mapper and scripted collaborators; unsynchronised fields isRunning/started/stopped modelled as atomic reads (clients synchronise through Running()/Started()).'),
   technique='Coq proof (state invariant over a thread-level LTS, witness schedules by vm_compute) + schedule replay of the stamped hook log of a real Router + executable API monitor',
